@@ -66,3 +66,283 @@ def hoisted_callable_defs(prologue, loop_body=()):
             if isinstance(v, ast.Lambda) or (isinstance(v, ast.Call) and ast.unparse(v.func) in ("partial", "functools.partial")):
                 out.append(st)
     return out
+
+
+def dealias_container_members(fn):
+    """`a, b = [], []` (or `a = []`) followed by `d = {"k1": a, "k2": b}`: a and d["k1"] are ONE list.  The engine's
+    values are immutable terms, so the alias is removed on the syntax tree: every later use of `a` becomes `d["k1"]`
+    (sound while `a` is never rebound afterwards).  Returns a rewritten copy of the function, or fn itself."""
+    import copy
+    body = fn.body
+    empties = {}
+    for st in body:
+        if isinstance(st, ast.Assign) and len(st.targets) == 1:
+            t, v = st.targets[0], st.value
+            if isinstance(t, ast.Name) and isinstance(v, ast.List) and not v.elts:
+                empties[t.id] = st
+            elif isinstance(t, ast.Tuple) and isinstance(v, ast.Tuple) and len(t.elts) == len(v.elts) and all(
+                    isinstance(a, ast.Name) and isinstance(b, ast.List) and not b.elts for a, b in zip(t.elts, v.elts)):
+                for a in t.elts:
+                    empties[a.id] = st
+    if not empties:
+        return fn
+    alias = {}
+    dict_stmt = None
+    for st in body:
+        if isinstance(st, ast.Assign) and len(st.targets) == 1 and isinstance(st.targets[0], ast.Name) and \
+                isinstance(st.value, ast.Dict) and st.value.keys and all(
+                    isinstance(k, ast.Constant) and isinstance(v, ast.Name) and v.id in empties
+                    for k, v in zip(st.value.keys, st.value.values)):
+            d = st.targets[0].id
+            for k, v in zip(st.value.keys, st.value.values):
+                alias[v.id] = (d, k.value)
+            dict_stmt = st
+            break
+    if not alias:
+        return fn
+    # never rebound afterwards
+    for n in ast.walk(fn):
+        if isinstance(n, ast.Name) and isinstance(n.ctx, ast.Store) and n.id in alias:
+            owner = empties.get(n.id)
+            if owner is None or not any(x is n for x in ast.walk(owner)):
+                return fn
+    new = copy.deepcopy(fn)
+
+    class R(ast.NodeTransformer):
+        def visit_Name(self, node):
+            if isinstance(node.ctx, ast.Load) and node.id in alias:
+                d, k = alias[node.id]
+                return ast.copy_location(ast.Subscript(value=ast.Name(id=d, ctx=ast.Load()), slice=ast.Constant(value=k),
+                                                       ctx=ast.Load()), node)
+            return node
+    out_body = []
+    seen_dict = False
+    for st in new.body:
+        if not seen_dict:
+            if isinstance(st, ast.Assign) and len(st.targets) == 1 and isinstance(st.targets[0], ast.Name) and \
+                    isinstance(st.value, ast.Dict) and st.targets[0].id == dict_stmt.targets[0].id:
+                seen_dict = True
+                st = ast.Assign(targets=st.targets, value=ast.Dict(keys=st.value.keys, values=[ast.List(elts=[], ctx=ast.Load())
+                                                                                            for _ in st.value.values]),
+                                lineno=st.lineno)
+            out_body.append(st)
+            continue
+        out_body.append(R().visit(st))
+    new.body = out_body
+    ast.fix_missing_locations(new)
+    return new
+
+
+# ---------------------------------------------------------------- scalar replacement of a private record holding loop state
+def _record_classes(tree):
+    """Private module-level NamedTuple / dataclass classes: name -> (fields in order, defaults, methods)."""
+    out = {}
+    for st in tree.body:
+        if not isinstance(st, ast.ClassDef) or not st.name.startswith("_"):
+            continue
+        bases = {ast.unparse(b).split(".")[-1] for b in st.bases}
+        decos = {ast.unparse(d.func if isinstance(d, ast.Call) else d).split(".")[-1] for d in st.decorator_list}
+        if "NamedTuple" not in bases and "dataclass" not in decos:
+            continue
+        fields, defaults, methods = [], {}, {}
+        for s in st.body:
+            if isinstance(s, ast.AnnAssign) and isinstance(s.target, ast.Name) and "ClassVar" not in ast.unparse(s.annotation):
+                fields.append(s.target.id)
+                if s.value is not None:
+                    defaults[s.target.id] = s.value
+            elif isinstance(s, ast.FunctionDef):
+                methods[s.name] = s
+        if fields and not any(k.startswith("__") for k in methods):
+            out[st.name] = (fields, defaults, methods, "NamedTuple" in bases)
+    return out
+
+
+def _method_as_expr(fn):
+    """`if c: return a` ... `return b` (after an optional docstring) as one conditional expression, or None."""
+    body = body_without_docstring(fn)
+
+    def conv(stmts):
+        if not stmts:
+            return None
+        s = stmts[0]
+        if isinstance(s, ast.Return) and s.value is not None:
+            return s.value
+        if isinstance(s, ast.If):
+            a = conv(s.body)
+            b = conv(s.orelse) if s.orelse else conv(stmts[1:])
+            if a is None or b is None:
+                return None
+            return ast.IfExp(test=s.test, body=a, orelse=b)
+        return None
+    return conv(body)
+
+
+def scalarise_record_state(module, fn):
+    """`state = _Rec(params=..., opt_state=..., ...)` with `state.params` reads and whole-record rebinding is the same
+    program as one with a local variable per field (a NamedTuple / dataclass record is immutable: the only way to change
+    a field is to rebind the name to a new record).  Returns fn rewritten that way - each field becomes the local of
+    the same name, record methods of the form if/return become conditional expressions - or fn itself when the shape
+    is not exactly that (the caller then reports what it cannot find)."""
+    import copy
+    recs = _record_classes(module.tree)
+    if not recs:
+        return fn
+    cands = {}
+    for n in ast.walk(fn):
+        if isinstance(n, ast.Assign) and len(n.targets) == 1 and isinstance(n.targets[0], ast.Name) and \
+                isinstance(n.value, ast.Call) and isinstance(n.value.func, ast.Name) and n.value.func.id in recs:
+            cands.setdefault(n.targets[0].id, n.value.func.id)
+    for var, cname in cands.items():
+        new = _scalarise_one(fn, var, cname, recs[cname])
+        if new is not None:
+            fn = new
+    return fn
+
+
+def _scalarise_one(fn, var, cname, rec):
+    import copy
+    fields, defaults, methods, is_nt = rec
+    new = copy.deepcopy(fn)
+    parents = {}
+    for p in ast.walk(new):
+        for ch in ast.iter_child_nodes(p):
+            parents[id(ch)] = p
+
+    def ctor_values(call):
+        if any(isinstance(a, ast.Starred) for a in call.args) or any(k.arg is None for k in call.keywords):
+            return None
+        vals = dict(zip(fields, call.args))
+        for k in call.keywords:
+            if k.arg not in fields or k.arg in vals:
+                return None
+            vals[k.arg] = k.value
+        for f in fields:
+            if f not in vals:
+                if f not in defaults:
+                    return None
+                vals[f] = copy.deepcopy(defaults[f])
+        return [vals[f] for f in fields]
+
+    state_stmts = set()      # ids of statements that rebind the record
+    # every store of the name is a whole-record construction (or _replace on itself)
+    for n in ast.walk(new):
+        if isinstance(n, ast.Name) and n.id == var and isinstance(n.ctx, (ast.Store, ast.Del)):
+            p = parents.get(id(n))
+            if not (isinstance(p, ast.Assign) and len(p.targets) == 1 and p.targets[0] is n and isinstance(p.value, ast.Call)):
+                return None
+            f = p.value.func
+            if isinstance(f, ast.Name) and f.id == cname and ctor_values(p.value) is not None:
+                state_stmts.add(id(p))
+            elif is_nt and isinstance(f, ast.Attribute) and f.attr == "_replace" and isinstance(f.value, ast.Name) and \
+                    f.value.id == var and not p.value.args and all(k.arg in fields for k in p.value.keywords):
+                state_stmts.add(id(p))
+            else:
+                return None
+    # every load is state.field, state.method(...) of if/return shape, or the _replace receiver above
+    for n in ast.walk(new):
+        if isinstance(n, ast.Name) and n.id == var and isinstance(n.ctx, ast.Load):
+            p = parents.get(id(n))
+            if not isinstance(p, ast.Attribute) or not isinstance(p.ctx, ast.Load):
+                return None
+            if p.attr in fields:
+                continue
+            pp = parents.get(id(p))
+            if p.attr == "_replace" and isinstance(pp, ast.Call) and id(parents.get(id(pp))) in state_stmts:
+                continue
+            if p.attr in methods and isinstance(pp, ast.Call) and pp.func is p and not methods[p.attr].decorator_list and \
+                    _method_as_expr(methods[p.attr]) is not None:
+                continue
+            return None
+    # a local that happens to have a field's name is renamed throughout (consistent renaming of a local changes nothing)
+    clash = {x.id for x in ast.walk(new) if isinstance(x, ast.Name) and x.id in fields}
+    if clash:
+        for x in ast.walk(new):
+            if isinstance(x, ast.arg) and x.arg in clash:
+                return None           # a parameter (of fn or of a nested scope) of that name: leave it
+            if isinstance(x, (ast.Global, ast.Nonlocal)) and set(x.names) & clash:
+                return None
+        for x in ast.walk(new):
+            if isinstance(x, ast.Name) and x.id in clash:
+                x.id = x.id + "__local"
+        # keyword names in the record's constructor / _replace calls are field names, not locals: untouched (ast.keyword)
+
+    def inline_method(call, attr):
+        m = methods[attr]
+        expr = copy.deepcopy(_method_as_expr(m))
+        a = m.args
+        if a.vararg or a.kwarg or a.posonlyargs:
+            return None
+        names = [p.arg for p in a.args][1:]
+        selfname = a.args[0].arg if a.args else None
+        bind = dict(zip(names, call.args))
+        if len(call.args) > len(names):
+            return None
+        for k in call.keywords:
+            if k.arg is None or k.arg in bind:
+                return None
+            bind[k.arg] = k.value
+        pos_defaults = dict(zip(names[len(names) - len(a.defaults):], a.defaults)) if a.defaults else {}
+        for pn in names:
+            if pn not in bind:
+                if pn not in pos_defaults:
+                    return None
+                bind[pn] = pos_defaults[pn]
+        for p_, d in zip(a.kwonlyargs, a.kw_defaults):
+            if p_.arg not in bind:
+                if d is None:
+                    return None
+                bind[p_.arg] = d
+        if set(bind) - set(names) - {p_.arg for p_ in a.kwonlyargs}:
+            return None
+
+        class S(ast.NodeTransformer):
+            def visit_Attribute(self, node):
+                if isinstance(node.value, ast.Name) and node.value.id == selfname and node.attr in fields:
+                    return ast.copy_location(ast.Name(id=node.attr, ctx=ast.Load()), node)
+                return self.generic_visit(node)
+
+            def visit_Name(self, node):
+                if node.id in bind and isinstance(node.ctx, ast.Load):
+                    return copy.deepcopy(bind[node.id])
+                return node
+        out = S().visit(expr)
+        if any(isinstance(x, ast.Name) and x.id == selfname for x in ast.walk(out)):
+            return None
+        return out
+
+    failed = []
+
+    class R(ast.NodeTransformer):
+        def visit_Assign(self, node):
+            if id(node) in state_stmts:
+                call = node.value
+                if isinstance(call.func, ast.Name):
+                    vals = [self.visit(v) for v in ctor_values(call)]
+                    tgt = ast.Tuple(elts=[ast.Name(id=f, ctx=ast.Store()) for f in fields], ctx=ast.Store())
+                    return ast.copy_location(ast.Assign(targets=[tgt], value=ast.Tuple(elts=vals, ctx=ast.Load())), node)
+                kws = call.keywords
+                tgt = ast.Tuple(elts=[ast.Name(id=k.arg, ctx=ast.Store()) for k in kws], ctx=ast.Store())
+                return ast.copy_location(ast.Assign(targets=[tgt], value=ast.Tuple(elts=[self.visit(k.value) for k in kws],
+                                                                                  ctx=ast.Load())), node)
+            return self.generic_visit(node)
+
+        def visit_Call(self, node):
+            f = node.func
+            if isinstance(f, ast.Attribute) and isinstance(f.value, ast.Name) and f.value.id == var and f.attr in methods:
+                node = self.generic_visit(node)
+                out = inline_method(node, f.attr)
+                if out is None:
+                    failed.append(f.attr)
+                    return node
+                return ast.copy_location(out, node)
+            return self.generic_visit(node)
+
+        def visit_Attribute(self, node):
+            if isinstance(node.value, ast.Name) and node.value.id == var and node.attr in fields:
+                return ast.copy_location(ast.Name(id=node.attr, ctx=ast.Load()), node)
+            return self.generic_visit(node)
+    new = R().visit(new)
+    if failed:
+        return None
+    ast.fix_missing_locations(new)
+    return new
